@@ -411,7 +411,6 @@ class Prop:
             "factors themselves (format, ranks, entries). Excluded from the Coq side (NumPy oracle only): construction from dense data, "
             "rounding, orthogonalisation, keys that touch the non-batch modes, batch-with-non-batch operands, the error clauses.")
     TRUSTED = ["the reading of torch.cat / einsum / reshape (row-major, leading batch axis kept) / sum / [:, None] as the index maps of Model/Batch.v",
-               "Tensor.torch() on a batch tensor is modelled (torch_b) and compared with eval of every element on each case, not proved equal to it",
                "NumPy float64 linear algebra (SVD) for the truncation oracles; exact integer arithmetic of float64 on the small inputs",
                "the shape bookkeeping sim_* in this file only TAGS cases for the open findings round-tt-null / eig-tall-factor, it never decides agreement",
                "ranks_cp=2 cases compare each batch element with the ordinary constructor run on the same data (differential, not an independent oracle)"]
@@ -425,7 +424,7 @@ class Prop:
                    "batch tensors with a single non-batch mode and broadcasting between batch operands are outside the quantifier and not generated"]
     THEOREMS = ["C18_add_slice", "C18_mul_slice", "C18_smul_slice", "C18_sadd_slice", "C18_decompress_slice", "C18_cp_to_tt_slice",
                 "C18_select_slice", "C18_select_int", "C18_wf_slice", "C18_add_c", "C18_mul_with", "C18_add", "C18_mul", "C18_smul",
-                "C18_sadd", "C18_decompress", "C18_select", "C18_add_batch_size", "C18_mul_batch_size"]
+                "C18_sadd", "C18_decompress", "C18_select", "C18_torch", "C18_add_batch_size", "C18_mul_batch_size"]
 
     # ------------------------------------------------------------------ generation
     def generate(self, rng, tier):
